@@ -13,7 +13,7 @@ from mc.core import require, Violation
 PROPERTY = 'C07'
 LEVEL = 'exploration'
 
-TREES = ['scalar', 'vec', 'mat_scalar', 'nested', 'int']
+TREES = ['scalar', 'vec', 'mat_scalar', 'nested', 'int', 'half']
 WEIGHTS = [0.0, 0.5, 1.0, 2.0]
 
 
@@ -33,7 +33,21 @@ def make_tree(kind, k, seed, as_jax):
     return {'p': [f(2, (2,)), {'q': f(3, (1, 3))}], 'r': conv(np.asarray(vals[6:8], np.float32))}
   if kind == 'int':
     return {'a': conv(np.asarray(vals[:3], np.int32)), 'f': f(2, (2,))}
+  if kind == 'half':
+    # reduced-precision leaves; small integers and halves are exact in float16 / bfloat16, so are their weighted sums
+    import ml_dtypes
+    return {'h': conv(np.asarray(vals[:3], np.float16)), 'bf': conv(np.asarray(vals[3:5], np.float32).astype(ml_dtypes.bfloat16)),
+            'f': f(1, ())}
   raise KeyError(kind)
+
+
+def _tol(dtype):
+  """Relative tolerance for results held in `dtype`."""
+  import jax.numpy as jnp
+  dtype = np.dtype(dtype)
+  if dtype.kind == 'f' or dtype.name == 'bfloat16':
+    return max(1e-5, 4 * float(jnp.finfo(dtype).eps))
+  return 1e-5
 
 
 def leaves(tree):
@@ -140,22 +154,23 @@ def mean_case(case):
         got = [np.asarray(l, np.float64) for l in leaves(out)]
         require(jax.tree_util.tree_structure(out) == jax.tree_util.tree_structure(trees[0]),
                 'output tree structure differs', case=nc)
-        for g, r in zip(got, ref):
+        tols = [_tol(np.asarray(l).dtype) for l in leaves(out)]
+        for g, r, tl in zip(got, ref, tols):
           require(g.shape == r.shape and bool(np.all(np.isfinite(g))), 'non-finite or mis-shaped mean',
                   r.tolist(), g.tolist(), case=nc)
-          require(bool(np.all(np.abs(g - r) <= 1e-5 + 1e-5 * np.abs(r))), fn + ' != sum(w*p)/sum(w)', r.tolist(),
+          require(bool(np.all(np.abs(g - r) <= tl + tl * np.abs(r))), fn + ' != sum(w*p)/sum(w)', r.tolist(),
                   g.tolist(), case=nc)
         if tot > 0:
           pos = [i for i in range(n) if ws[i] > 0]
           for li, g in enumerate(got):
-            lo = np.min([snaps[i][li] for i in pos], axis=0) - 1e-5
-            hi = np.max([snaps[i][li] for i in pos], axis=0) + 1e-5
+            lo = np.min([np.asarray(snaps[i][li], np.float64) for i in pos], axis=0) - 1e-5
+            hi = np.max([np.asarray(snaps[i][li], np.float64) for i in pos], axis=0) + 1e-5
             require(bool(np.all((g >= lo) & (g <= hi))), 'mean outside the coordinate-wise hull', case=nc)
         check_inputs_intact(trees, snaps, out, fn, nc)
         if base is None:
           base = got
-        for g, b in zip(got, base):
-          require(bool(np.all(np.abs(g - b) <= 1e-5 + 1e-5 * np.abs(b))), 'result depends on the client order',
+        for g, b, tl in zip(got, base, tols):
+          require(bool(np.all(np.abs(g - b) <= tl + tl * np.abs(b))), 'result depends on the client order',
                   b.tolist(), g.tolist(), case=nc)
         # the output must survive the death of the inputs
         if as_jax and evals % 7 == 0:
@@ -184,8 +199,8 @@ def sum_case(case):
       got = [np.asarray(l) for l in leaves(out)]
       for li, g in enumerate(got):
         r = sum(np.asarray(snaps[i][li], np.float64) for i in range(n))
-        require(g.shape == r.shape and bool(np.all(np.abs(g - r) <= 1e-5 + 1e-5 * np.abs(r))), 'tree_sum != sum', r.tolist(),
-                g.tolist(), case=nc)
+        require(g.shape == r.shape and bool(np.all(np.abs(g.astype(np.float64) - r) <= 1e-5 + _tol(g.dtype) * np.abs(r))),
+                'tree_sum != sum', r.tolist(), g.tolist(), case=nc)
         require(g.dtype == snaps[0][li].dtype, 'tree_sum changed the dtype', str(snaps[0][li].dtype), str(g.dtype),
                 case=nc)
       check_inputs_intact(trees, snaps, out, 'tree_sum', nc)
@@ -263,9 +278,14 @@ SUBS = {'mean': mean_case, 'sum': sum_case, 'clip': clip_case}
 TIMEOUTS = {k: 600 for k in SUBS}
 
 
+# sub-spaces re-executed under other interpreter configurations (mc.core.CONFIGS): {configuration: {sub-space: stride}}
+# quick tier: every stride-th planned case, thorough tier: all planned cases
+CONFIG_PASSES = {'x64': {'mean': 16, 'clip': 6, 'sum': 6}}
+
+
 def plan(ctx):
   th = ctx.tier == 'thorough'
-  ctx.rule = ('tree structure (5) x number of clients 1..4 x every weight vector over {0,.5,1,2}^n x every input order '
+  ctx.rule = ('tree structure (6, one with float16/bfloat16 leaves) x number of clients 1..4 x every weight vector over {0,.5,1,2}^n x every input order '
               'x {list, generator, one-shot iterable} x {tree_mean, mean_aggregator} x {jax, numpy} leaves; '
               'tree_sum: n<=4 x all orders; clipping: 7 bounds relative to the norm x tree scales {1e-8,1e-7,1e-4,1,1e4,1e12} + zero trees; client ids {distinct, all equal, pairwise equal}; distinct = case tuple; '
               'non-trivial = a zero weight or unequal weights')
@@ -285,7 +305,7 @@ def plan(ctx):
   ctx.pmap('mean', mc, chunk=24)
   ctx.run('sum', [{'tree': t, 'n': n, 'jax': j, 'seed': ctx.seed} for t in TREES for n in (1, 2, 3, 4)
                   for j in (True, False) if th or n <= 3 or j])
-  ctx.run('clip', [{'tree': t, 'k': k, 'jax': j, 'seed': ctx.seed, 'zero': z} for t in TREES for k in range(3)
+  ctx.run('clip', [{'tree': t, 'k': k, 'jax': j, 'seed': ctx.seed, 'zero': z} for t in TREES[:5] for k in range(3)
                    for j in (True, False) for z in (False, True) if not (z and k)] +
-          [{'tree': t, 'k': k, 'jax': j, 'seed': ctx.seed, 'zero': False, 'scale': sc} for t in TREES for k in range(2)
+          [{'tree': t, 'k': k, 'jax': j, 'seed': ctx.seed, 'zero': False, 'scale': sc} for t in TREES[:5] for k in range(2)
            for j in (True, False) for sc in (1e-8, 1e-7, 1e-4, 1e4, 1e12)])
